@@ -108,16 +108,6 @@ theorem dataSecLoop_pot (R : Nat) (cm : Bool) (iters F : Nat) (hR : iters ≤ R)
 
 /-! ### GetKeyword -/
 
-theorem pot_putback (R : Nat) (s : IS) (c : Byte) : pot R (s.putback c) ≤ pot R s + 4 ∧ (s.putback c).m ≤ s.m + 1 ∧
-    (s.m = 0 → (s.putback c).m = 0) := by
-  have h1 := putback_m s c
-  refine ⟨?_, h1, fun h => putback_m_zero s c h⟩
-  by_cases hz : s.m = 0
-  · rw [pot_zero (putback_m_zero s c hz)]; omega
-  · by_cases hz2 : (s.putback c).m = 0
-    · rw [pot_zero hz2]; omega
-    · rw [pot_pos (by omega), pot_pos (by omega)]; omega
-
 def GetKwOk (R : Nat) (rec : IS → Byte → Nat → List Byte → Nat → Out (IS × List Byte × Nat)) (fuel : Nat) : Prop :=
   ∀ (s : IS) (c : Byte) (sz : Nat) (acc : List Byte) (steps : Nat), s.m + 1 ≤ fuel →
     ∃ s' acc' st, rec s c sz acc steps = .ok (s', acc', st) ∧ s'.m ≤ s.m + 1 ∧ (s.m = 0 → s'.m = 0 ∧ st = steps) ∧
